@@ -4,8 +4,11 @@ import (
 	"fmt"
 	"sort"
 	"strings"
+	"sync/atomic"
+	"time"
 
 	"github.com/olive-io/bpmn/schema"
+	"github.com/olive-io/bpmn/v2/pkg/event"
 
 	"verifharness/internal/eng"
 	"verifharness/internal/rec"
@@ -36,6 +39,7 @@ type c11ev struct{ kind, name string }
 
 type c11shape struct {
 	name  string
+	ebg   bool // catch events behind an event-based gateway (judged by the property predicate only, see the driver)
 	par   bool // two tasks can be pending at once: scripts also use "answer the second pending task"
 	evs   []c11ev
 	build func(g *eng.Graph) map[string]int
@@ -142,6 +146,27 @@ var c11shapes = []c11shape{
 		g.Wrap(eng.Frag{Entry: f, Exit: t1})
 		return nil
 	}},
+	// event-based gateway: the first event decides; the losing catch event keeps the dead token's reply channel (D21)
+	{name: "ebg", ebg: true, evs: []c11ev{sigA, msgB, sigZ}, build: func(g *eng.Graph) map[string]int {
+		t0 := g.Add("task", "T0", "")
+		gw := g.Add("eventBasedGateway", "G", "")
+		c1 := c11catch(g, "C1", sigA).Entry
+		c2 := c11catch(g, "C2", msgB).Entry
+		t1 := g.Add("task", "T1", "")
+		t2 := g.Add("task", "T2", "")
+		m := g.Add("exclusiveGateway", "M", "")
+		t3 := g.Add("task", "T3", "")
+		g.Connect(t0, gw, nil)
+		g.Connect(gw, c1, nil)
+		g.Connect(gw, c2, nil)
+		g.Connect(c1, t1, nil)
+		g.Connect(c2, t2, nil)
+		g.Connect(t1, m, nil)
+		g.Connect(t2, m, nil)
+		g.Connect(m, t3, nil)
+		g.Wrap(eng.Frag{Entry: t0, Exit: t3})
+		return nil
+	}},
 	// plain multiple catch event: either definition fires it
 	{name: "multi", evs: []c11ev{sigA, msgB, sigZ}, build: func(g *eng.Graph) map[string]int {
 		g.Wrap(g.Seq(c11task(g, "T0"), c11catch(g, "C1", sigA, msgB), c11task(g, "T1")))
@@ -222,6 +247,16 @@ func c11cases(tier string) []c11case {
 			c11word(letters, n, func(w []c11step) {
 				// scripts of the full length that consist of deliveries only are the ones that can fill an inbox;
 				// in the quick tier keep a third of them (each blocked delivery costs the deadline)
+				if !thorough && n == 3 && len(letters) > 4 {
+					// larger alphabets: half of the longest scripts in the quick tier
+					h := 0
+					for _, st := range w {
+						h = h*11 + int(st.op) + st.arg
+					}
+					if h%2 != 0 {
+						return
+					}
+				}
 				if !thorough && n == 4 {
 					nd := 0
 					h := 0
@@ -255,6 +290,15 @@ func c11cases(tier string) []c11case {
 				}
 			}
 		}
+		// 2b. event-based gateway: one alternative wins, then events for the losing one keep coming
+		if s.ebg {
+			a0 := c11step{'a', 0}
+			for _, wl := range [][2]int{{0, 1}, {1, 0}} {
+				win, lose := c11step{'d', wl[0]}, c11step{'d', wl[1]}
+				cs = append(cs, c11case{shape: si, steps: cat([]c11step{a0, win}, rep(lose, 6)), tag: "late-loser"})
+				cs = append(cs, c11case{shape: si, steps: cat([]c11step{a0, win, lose}, rep(c11step{'d', 2}, 5), []c11step{a0, a0}), tag: "late-loser"})
+			}
+		}
 		// 3. deliveries before the instance is started (the start event's reader is not running either)
 		for _, k := range []int{1, 2, 3} {
 			if k == 3 && !thorough {
@@ -265,7 +309,7 @@ func c11cases(tier string) []c11case {
 		// 4. seeded longer scripts (5..8 deliveries, arming in between)
 		nr := 4
 		if thorough {
-			nr = 60
+			nr = 160
 		}
 		for i := 0; i < nr; i++ {
 			cs = append(cs, c11case{shape: si, random: 5 + i%4, tag: "random"})
@@ -347,6 +391,52 @@ func c11progExtra(proc *schema.Process) []string {
 	}
 	out = append(out, "consumers "+strings.Join(order, ","))
 	return out
+}
+
+// c11deliver hands an event to the instance under the deadline (same lines as eng.Inst.Deliver). A call that has not
+// returned at the deadline is looked at again once no goroutine of the process can run any more: a caller that is
+// really parked on a full inbox is still parked then, one that was only slow (loaded machine) has returned.
+func c11deliver(in *eng.Inst, e c11ev, d time.Duration, stats map[string]int) bool {
+	var ev event.IEvent
+	if e.kind == "message" {
+		ev = event.NewMessageEvent(e.name, nil)
+	} else {
+		ev = event.NewSignalEvent(e.name)
+	}
+	in.Op("deliver %s %s", e.kind, e.name)
+	done := make(chan struct{})
+	var panicked atomic.Value
+	go func() {
+		defer func() {
+			if r := recover(); r != nil {
+				panicked.Store(fmt.Sprint(r))
+			}
+			close(done)
+		}()
+		in.Proc.ConsumeEvent(ev)
+	}()
+	ret := false
+	select {
+	case <-done:
+		ret = true
+	case <-time.After(d):
+		in.Quiesce(4 * timeSecond)
+		select {
+		case <-done:
+			ret = true
+			stats["slow_delivery_returned_after_deadline"]++
+		default:
+		}
+	}
+	if p := panicked.Load(); p != nil {
+		in.Note("obs panic %s", strings.ReplaceAll(p.(string), "\n", " "))
+	}
+	if ret {
+		in.Note("obs ret deliver %s returned", e.name)
+	} else {
+		in.Note("obs ret deliver %s blocked", e.name)
+	}
+	return ret
 }
 
 func c11run(out *rec.Out, c c11case, rng *rec.Rng, stats map[string]int) {
@@ -442,7 +532,7 @@ func c11run(out *rec.Out, c c11case, rng *rec.Rng, stats map[string]int) {
 			}
 		case 'd':
 			e := s.evs[st.arg]
-			if !in.Deliver(e.kind, e.name, c11deadline) {
+			if !c11deliver(in, e, c11deadline, stats) {
 				blocked++
 			}
 		case 'a':
